@@ -389,7 +389,7 @@ def main(chk, tier, seed):
     nproc = 16
     jobs = [{"seed": seed, "items": items[i::nproc], "lines": False} for i in range(nproc)]
     jobs = [j for j in jobs if j["items"]]
-    results = common.run_workers("c27", jobs, nproc=nproc, timeout=3000)
+    results = common.run_workers("c27", jobs, nproc=nproc, timeout=600 if tier == "quick" else 3000)
     common.merge_results(chk, results)
     chk.extra["departing_sets_enumerated_per_instance"] = "all subsets of size 1..k" if exhaustive else "seeded sample of 2 subsets per instance"
     chk.inconclusive_if(chk.counters.get("rehosted_computations", 0) < 5 and not chk.violations, "fewer than 5 computations re-hosted in total")
